@@ -33,7 +33,7 @@ def gen_combine(rng, tier):
 
 def run(chk):
     quick = chk.tier == "quick"
-    chk.build("C11", extra=["Model/GJoin"])
+    chk.build("C11", extra=["Model/GJoin", "Model/GfPlan"])
     rng = chk.rng
     nontrivial = 0
     # ---------------- combine_sts_lts: real static method vs the regenerated function vs the reference description
@@ -114,6 +114,91 @@ Eval vm_compute in (length cases, length (filter (fun c => negb (ok c)) cases)).
             if max(abs(a - b) for a, b in zip(two, cor[(0.05, 0.11)])) > 1e-12:
                 chk.violation("interp", c, {"two_steps": two[:3], "one_step": cor[(0.05, 0.11)][:3]}, "the radius correction is additive in ln(radius ratio)")
             nontrivial += 2
+    # ---------------- decision prefix of g_function_interpolation: real method (scipy constructors spied) vs Model/GfPlan.gf_plan (regenerated parts)
+    pool = [35.0, 40.0, 60.0, 75.5, 97.5, 110.0, 135.0, 200.0, 384.0]
+    pc = []
+    for k in range(160 if quick else 1200):
+        nh = 1 + k % 7
+        hs = rng.sample(pool, nh)
+        if k % 3 == 0:
+            hs = sorted(hs)
+        if k % 11 == 0 and nh >= 2:
+            hs[1] = hs[0] + 5e-7                    # two stored heights closer than the snapping distance
+        kind = ["default", "default", "default", "linear", "quadratic", "cubic", "lagrange", "nearest"][rng.randrange(8)]
+        base = rng.choice(hs + [min(hs), max(hs)])
+        h = base + rng.choice([0.0, 0.0, 5e-7, -5e-7, 2e-6, -2e-6, 5e-4, -5e-4, 2e-3, -2e-3, 0.3, -0.3, 17.0, -17.0, 250.0])
+        if h <= 1.0:
+            h = base
+        pc.append({"B": rng.choice([5.0, 6.1, 7.5]), "heights": hs, "h": h, "kind": kind, "stored": h in hs})
+    # directed: every family size 1..7 asked for each of its stored heights with the default kind
+    for nh in range(1, 8):
+        hs = pool[:nh] if nh % 2 else list(reversed(pool[:nh]))
+        pc += [{"B": 5.0, "heights": hs, "h": h, "kind": "default", "stored": True} for h in hs]
+    rp = run_impl("gf_drv.py", {"mode": "plan", "cases": pc}, timeout=600)
+    if isinstance(rp, dict) and "_error" in rp:
+        chk.broken.append({"name": "correspondence C11/plan (implementation driver failed)", "detail": rp["_error"][-300:]})
+    else:
+        need = {"linear": 2, "quadratic": 3, "cubic": 4, "lagrange": 2}
+        items, dist = [], {}
+        for c, o in zip(pc, rp):
+            chk.cov["evaluations"] += 1
+            h0 = float.fromhex(o["h0"]) if "h0" in o else None
+            if h0 is None:
+                chk.broken.append({"name": "correspondence C11/plan: driver error", "detail": json.dumps(o)[:300]})
+                continue
+            exact = any(h0 == x for x in c["heights"])
+            if o.get("ret"):
+                heq = float.fromhex(o["h_eq"])
+                if o["single"]:
+                    exp, tag = f"PSingle {q(heq)}", "single"
+                else:
+                    cl = o["calls"][0]
+                    exp, tag = f'PInterp "{cl["kind"]}" {coq_bool(cl["fill"] == "extrapolate")} {q(heq)}', cl["kind"]
+                    if cl["kind"] in need and need[cl["kind"]] > len(c["heights"]):
+                        chk.violation("plan", c, {"kind": cl["kind"], "stored": len(c["heights"])}, "the interpolation kind handed to scipy needs no more curves than are stored")
+                    if sorted(cl["x"]) != sorted(c["heights"]):
+                        chk.violation("plan", c, {"knots": cl["x"]}, "the interpolation is built on exactly the stored heights")
+                    if cl["fill"] is not None and (o["warned"] > 0) != (cl["fill"] == "extrapolate"):
+                        chk.violation("plan", c, {"fill_value": cl["fill"], "warnings": o["warned"]}, "extrapolation is used exactly when it is announced")
+                if exact and c["kind"] == "default":
+                    nontrivial += 1
+                    if (not o["single"] and o["calls"][0]["fill"] != "") or abs(heq - h0) >= 1e-6 or heq not in c["heights"]:
+                        chk.violation("plan", c, {"h_eq": heq, "result": o}, "a stored height is interpolated (not extrapolated) at that height")
+                    if o["single"] and o["g"] != [1.0 + 0.01 * c["heights"][0], 2.0 + 0.01 * c["heights"][0]]:
+                        chk.violation("plan", c, {"g": o["g"]}, "a single-curve family asked for its stored height returns the stored curve")
+            else:
+                exp, tag = {"ValueError": "PValueError", "KeyError": "PKeyError"}.get(o["exc"], "PKeyError (* " + o["exc"] + " *)"), o["exc"]
+                if o["exc"] not in ("ValueError", "KeyError"):
+                    chk.broken.append({"name": "correspondence C11/plan: unexpected exception class", "detail": json.dumps([c, o])[:300]})
+                if exact and c["kind"] == "default":
+                    chk.violation("plan", c, {"exception": o["exc"]}, "interpolating the long-time family at a stored height succeeds")
+            dist[tag] = dist.get(tag, 0) + 1
+            items.append(f'({qlist(c["heights"])}, {q(h0)}, "{c["kind"]}"%string, {exp}, {coq_bool(c["kind"] == "lagrange")})')
+        chk.cov.setdefault("input_distribution", {})["plan_outcomes"] = dist
+        if getattr(chk, "model_ok", False) and items:
+            txt = HEADER.replace("Model.GJoin.", "Model.GJoin Model.GfPlan.").replace("List Bool.", "List Bool String.") + "Open Scope string_scope. Open Scope Q_scope.\n" + \
+                "Definition cases : list (list Q * Q * string * plan * bool) := [\n" + ";\n".join(items) + """].
+Definition plan_eqb (lag : bool) (a b : plan) : bool :=
+  match a, b with
+  | PSingle x, PSingle y => Qeq_bool x y
+  | PInterp k e x, PInterp k' e' y => String.eqb k k' && (lag || Bool.eqb e e') && Qeq_bool x y
+  | PValueError, PValueError => true
+  | PKeyError, PKeyError => true
+  | _, _ => false
+  end.
+Definition ok (c : list Q * Q * string * plan * bool) : bool := let '(hs, h, kind, exp, lag) := c in plan_eqb lag (gf_plan hs h kind) exp.
+Eval vm_compute in (List.length cases, List.length (filter (fun c => negb (ok c)) cases), find (fun c => negb (ok c)) cases).
+"""
+            rc, out, err = chk.coq_eval("plan", txt, timeout=600)
+            m = re.search(r"=\s*\((\d+)(?:%nat)?,\s*(\d+)(?:%nat)?,", " ".join(out.split()))
+            if rc != 0 or not m:
+                chk.broken.append({"name": "correspondence C11/plan did not evaluate", "detail": (err or out)[-400:]})
+            else:
+                if int(m.group(2)):
+                    chk.broken.append({"name": "correspondence C11/plan: Model/GfPlan.gf_plan (regenerated statements and tables) differs from the real g_function_interpolation",
+                                       "detail": f"{m.group(2)} of {m.group(1)}; first: " + " ".join(out.split())[-500:]})
+                chk.cov["traces_validated_against_impl"] = chk.cov.get("traces_validated_against_impl", 0) + int(m.group(1)) - int(m.group(2))
+                chk.cov["correspondence_cases"] = chk.cov.get("correspondence_cases", 0) + int(m.group(1))
     # ---------------- real GHE objects
     gc = [{"nx": 2, "ny": 2, "months": 12, "H": 100.0, "heights": [60.0, 97.5, 135.0], "H_eval": h, "loads": {"kind": "balanced", "scale": 5000.0, "seed": 1},
            "pipe": p} for h, p in ((97.5, "SINGLEUTUBE"), (60.0, "COAXIAL"), (120.0, "DOUBLEUTUBEPARALLEL"))][: (2 if quick else 3)]
